@@ -19,10 +19,11 @@ const (
 	KStruct             // struct value: fields
 	KTuple              // multiple results
 	KUnit               // no value
+	KMap                // spec-level map Int -> Int: (Array Int Int)
 )
 
 func (k Kind) String() string {
-	return [...]string{"int", "bool", "string", "bytes", "ref", "struct", "tuple", "unit"}[k]
+	return [...]string{"int", "bool", "string", "bytes", "ref", "struct", "tuple", "unit", "map"}[k]
 }
 
 type Val struct {
@@ -31,6 +32,7 @@ type Val struct {
 	A []string   // component terms
 	F []Val      // fields of struct / tuple
 	// Static side information (not part of the logical value):
+	Origin string // "T.f" when the value was loaded from that struct field (function-typed fields)
 	Elems []Val // known elements when this ref is a freshly built literal slice/array
 	Boxed *Val  // value boxed by MakeInterface (static knowledge)
 }
@@ -61,6 +63,8 @@ func sortsOf(k Kind) []string {
 		return []string{"String"}
 	case KBytes:
 		return []string{"String", "Bool"}
+	case KMap:
+		return []string{"(Array Int Int)"}
 	}
 	return nil
 }
